@@ -2,7 +2,9 @@
 from harness import wavecheck as wk, waveoracle as wo
 
 THEOREMS = ['C03_total', 'C03_final', 'C03_init', 'C03_wf', 'C03_circuit_settles',
-            'C03_flat_refines', 'C03_regions_check_sound']
+            'C03_flat_refines', 'C03_regions_check_sound',
+            'C03_build_regions_all', 'C03_wavesim_model_alias', 'C03_wavesim_model_correct', 'C03_wglue_hyps_check_sound',
+            'C03_wavesim_model_settles', 'C03_wavesim_model_example']
 
 
 def oracle(k, w):
@@ -16,7 +18,7 @@ def oracle(k, w):
 def run(ck):
     if THEOREMS:
         ck.prove('C03', THEOREMS)
-    fails, mism = wk.campaign(ck, ck.scale(72, 1500), oracle, gen_kw={'strip_prob': 0.3}, coq_lanes=1, stress_every=2, line_level=True)
+    fails, mism = wk.campaign(ck, ck.scale(72, 1500), oracle, gen_kw={'strip_prob': 0.3}, coq_lanes=1, stress_every=2, line_level=True, glue=True)
     ck.rule('random circuits x integer delay tables (zero/uniform/polarity-free/fully polarity-dependent/large spread) x capacities '
             '4/8/16/per-line vectors (overflowing) x single- and multi-transition input waveforms x 1..5 lanes x c_reuse; '
             'oracle: Boolean function of initial/final input values at every line and port')
